@@ -350,13 +350,23 @@ def _choose_mie_vs_multisphere(spheres):
     center_or_radius_not_set = [
         getattr(s, k) is None
         for s in spheres.scatterers for k in ['center', 'r']]
+    # a radius that depends on the illumination channel (dictionary or
+    # labelled array) is one radius per channel, not a coated sphere
+    radii = []
+    for sphere in spheres.scatterers:
+        if isinstance(sphere.r, dict):
+            radii.extend(sphere.r.values())
+        elif getattr(sphere.r, 'dims', None) == (illumination,):
+            radii.extend(sphere.r.values)
+        else:
+            radii.append(sphere.r)
     if len(spheres.scatterers) == 1:
         theory = Mie()
     elif any(center_or_radius_not_set):
         msg = ("Sphere centers and radii must be set for scattering " +
                "calculations with more than one sphere.")
         raise InvalidScatterer(spheres, msg)
-    elif any([not np.isscalar(sphere.r) for sphere in spheres.scatterers]):
+    elif any([not np.isscalar(r) for r in radii]):
         warn("HoloPy's multisphere theory can't handle coated spheres." +
              "Using Mie theory.")
         theory = Mie()
@@ -393,7 +403,7 @@ def _choose_mie_vs_multisphere(spheres):
         # by fitting electromagnetic scattering solutions to digital
         # holograms." Journal of Quantitative Spectroscopy and Radiative
         # Transfer 113.18 (2012): 2482-2489.
-        max_radius = max([sphere.r for sphere in spheres.scatterers])
+        max_radius = max(radii)
         centers = np.array([sphere.center for sphere in spheres.scatterers])
         dx = centers.reshape(1, -1, 3) - centers.reshape(-1, 1, 3)
         max_separation = np.linalg.norm(dx, axis=2).max()
